@@ -122,3 +122,11 @@ impl RealInstant {
         std::time::Duration::from_nanos(real_monotonic_ns().saturating_sub(self.0))
     }
 }
+
+/// Processor time used by this process so far (all threads), in ns.
+pub fn process_cpu_ns() -> u64 {
+    const CLOCK_PROCESS_CPUTIME_ID: i64 = 2;
+    let mut ts = Timespec { tv_sec: 0, tv_nsec: 0 };
+    unsafe { syscall(SYS_CLOCK_GETTIME, CLOCK_PROCESS_CPUTIME_ID, &mut ts as *mut Timespec) };
+    (ts.tv_sec as u64) * 1_000_000_000 + ts.tv_nsec as u64
+}
